@@ -51,6 +51,8 @@ def parseEv (j : Json) : R Ev := do
   match ← arr j with
   | [.str "post", r] => return .post (← parseReq r)
   | [.str "reqstart"] => return .reqStart
+  | [.str "reqstop"] => return .reqStop
+  | [.str "reqdone", b] => return .reqDone (← b.getBool?)
   | [.str "take"] => return .take
   | [.str "cb"] => return .cycleBegin
   | [.str "ce", a, p] => return .cycleEnd (← a.getBool?) (← p.getBool?)
@@ -82,6 +84,8 @@ def jkind : IKind → Json
 def jev : Ev → Json
   | .post r => jarr [Json.str "post", jreq r]
   | .reqStart => jarr [Json.str "reqstart"]
+  | .reqStop => jarr [Json.str "reqstop"]
+  | .reqDone b => jarr [Json.str "reqdone", Json.bool b]
   | .take => jarr [Json.str "take"]
   | .cycleBegin => jarr [Json.str "cb"]
   | .cycleEnd a p => jarr [Json.str "ce", Json.bool a, Json.bool p]
